@@ -360,6 +360,7 @@ func c11Run(c *core.Ctx) {
 		}
 	} else if c.Shard == 0 {
 		c.Note("security.Count is no longer a single uint32: the hidden-state search is skipped (operation pairs without reads still run)")
+		c.Cap("hidden-state search skipped: the backing word of security.Count is not readable as one uint32")
 	}
 	c.Add("operation_pairs_without_reads", pairs)
 	c.Add("hidden_backing_states_explored", hidden)
